@@ -331,7 +331,8 @@ Obs(w, x) ==
     [] w.k = "chr" -> <<"(char->integer " \o x \o ")", ToString(w.cp)>>
     [] w.k = "bool" -> <<x, IF w.b THEN "#true" ELSE "#false">>
     [] w.k = "void" -> <<"(void? " \o x \o ")", "#true">>
-    [] w.k = "p" -> <<"(list (p-x " \o x \o ") (equal? " \o x \o " " \o Src(w) \o "))", "(" \o ZStr(w.x) \o " #true)">>
+    [] w.k = "p" -> <<"(let ((o " \o x \o ")) (list (p-get-x o) (equal? (p-get-s o) " \o StrSrc(w.s) \o ")))",
+                      "(" \o ZStr(w.x) \o " #true)">>
     [] OTHER -> <<"(equal? " \o x \o " " \o Src(w) \o ")", "#true">>
 
 -----------------------------------------------------------------------------
